@@ -19,7 +19,8 @@ RULE = ('A base deck from the mixed generators (level-0 Boolean decks, '
         'columns); continuation lines at any existing blank by >= 5 leading '
         'blanks (or a tab) or a trailing ampersand; full-line c comments '
         'between and inside cards and in-line $ comments; a leading message '
-        'block; blanks / tabs after the last entry of a line, blank-only '
+        'block; blanks around the equals sign of keyword=value on cell and '
+        'material cards; blanks / tabs after the last entry of a line, blank-only '
         'delimiter lines and CRLF line ends; number spellings (Python-compatible: 1.50, +1.5, 15e-1, .5 / '
         'Fortran-only: 1.5+0, 1.5d0, labelled separately); data-card '
         'shorthand (nR in IMP cards and FILL arrays, nJ vs J J in TR cards) '
@@ -30,13 +31,15 @@ RULE = ('A base deck from the mixed generators (level-0 Boolean decks, '
         'actually applied and >= 3 lines differ; distinct = variant text.')
 ASSUMPTIONS = [
     'only respellings named by the statement are applied; blanks are never '
-    'inserted where there were none',
+    'inserted where there were none, except around the equals sign of '
+    'keyword=value, which MCNP reads as a blank (the cell-card parser of the '
+    'converter accepts it by design)',
     'composition names may differ between the two files; the association '
     'volume -> composition content is what is compared',
 ]
 
 REWRITES = ['case', 'blanks', 'indent', 'breaks', 'amp', 'dollar',
-            'ccomments', 'message', 'shorthand']
+            'ccomments', 'message', 'shorthand', 'eqblanks']
 
 
 @st.composite
